@@ -6,4 +6,4 @@ Require Extraction.
 Require ExtrOcamlBasic.
 Extraction Language OCaml.
 Extraction "model.ml" dec_op dec_msg dec_req dec_cfg dec_verdict enc_msg enc_req enc_verdict
-  diff_trace pi_full P_none run.
+  diff_trace pi_full P_none run pi_C14 P_C14.
